@@ -336,6 +336,70 @@ def silent_origin(kind):
     finally:
         fpx.stop(); hop.stop(); e3.stop()
 
+# ---- also in parallel: a UDP origin behind the reverse listener goes away while a client is using it (the proxy's
+#      upstream socket gets 'port unreachable', the session ends with an error) and comes back on the same port: the SAME
+#      client socket (the source address the listener has seen before) and a fresh one are served again
+udp_result = {}
+def udp_origin_outage():
+    try:
+        def origin(port=None):
+            o = socket.socket(socket.AF_INET, socket.SOCK_DGRAM)
+            o.setsockopt(socket.SOL_SOCKET, socket.SO_REUSEADDR, 1)
+            o.bind(('127.0.0.1', port or 0))
+            def loop():
+                while True:
+                    try:
+                        d, a = o.recvfrom(70000)
+                        o.sendto(b'R' + d, a)
+                    except OSError:
+                        return
+            threading.Thread(target=loop, daemon=True).start()
+            return o
+        o = origin()
+        oport = o.getsockname()[1]
+        up_, uap = free_port(), free_port()
+        upx = Proxy({'listeners': [{'name': 'rudp', 'type': 'reverse', 'protocol': 'udp', 'bind': f'127.0.0.1:{up_}', 'target': f'127.0.0.1:{oport}'}],
+                     'connectors': [{'name': 'direct'}], 'rules': [{'target': 'direct'}], 'metrics': {'bind': f'127.0.0.1:{uap}', 'ui': None}}, 'c19u')
+        upx.api_port = uap
+        if not upx.start([uap]):
+            udp_result['machinery'] = 'proxy did not start'
+            return
+        def ask(c, payload, t=1.0):
+            c.sendto(payload, ('127.0.0.1', up_))
+            c.settimeout(t)
+            end = time.time() + t
+            while time.time() < end:
+                try:
+                    d, _ = c.recvfrom(70000)
+                except OSError:
+                    return False
+                if d == b'R' + payload:
+                    return True
+            return False
+        a = socket.socket(socket.AF_INET, socket.SOCK_DGRAM); a.bind(('127.0.0.1', 0))
+        b = socket.socket(socket.AF_INET, socket.SOCK_DGRAM); b.bind(('127.0.0.1', 0))
+        if not (ask(a, b'a-before') and ask(b, b'b-before')):
+            udp_result['machinery'] = 'reverse udp path does not work before the outage'
+            return
+        o.close()
+        time.sleep(0.2)
+        served_down = sum(1 for i in range(3) if ask(a, b'a-down%d' % i, 0.4))
+        o = origin(oport)
+        rec = {}
+        for name, c in (('same-client-socket', a), ('other-known-client-socket', b)):
+            rec[name] = None
+            for attempt in range(1, K + 1):
+                if ask(c, f'{name}-{attempt}'.encode(), 1.0):
+                    rec[name] = attempt
+                    break
+        n = socket.socket(socket.AF_INET, socket.SOCK_DGRAM); n.bind(('127.0.0.1', 0))
+        rec['fresh-client'] = next((i for i in range(1, K + 1) if ask(n, b'fresh%d' % i, 1.0)), None)
+        udp_result.update({'recovered_at_attempt': rec, 'answered_while_down': served_down, 'alive': upx.alive()})
+        upx.stop(); o.close()
+    except Exception as e:
+        udp_result['machinery'] = repr(e)
+udp_thread = threading.Thread(target=udp_origin_outage, daemon=True)
+udp_thread.start()
 long_thread = threading.Thread(target=long_quic_outage, daemon=True)
 long_thread.start()
 def _guard(k):
@@ -521,6 +585,19 @@ for kind in ('quic', 'http', 'socks'):
     if not r['alive']:
         chk.violation('recovery.isolation', f'process-died:{kind}', f'{kind}: a proxy process ended during the silent-origin scenario', {'connector': kind})
     samples.append({'silent_origin': kind, 'result': r})
+udp_thread.join(60)
+evals += 1
+if udp_thread.is_alive() or 'machinery' in udp_result:
+    machinery(f'UDP origin outage scenario: {udp_result.get("machinery", "did not finish")}')
+for who, att in udp_result['recovered_at_attempt'].items():
+    distinct.add(('udp-origin-outage', who, att is not None))
+    if att is None:
+        chk.violation('recovery.resume', f'no-service-after-upstream-returned:reverse-udp/{who}', f'reverse udp listener -> direct: the origin went away while in use and came back on its port; {who}: {K} datagrams one second apart, no answer', {'listener': 'reverse-udp', 'who': who, 'result': udp_result})
+if udp_result.get('answered_while_down'):
+    chk.violation('recovery.resume', 'datagram-answered-while-origin-was-away:reverse-udp', f'{udp_result["answered_while_down"]} answers while the origin socket was closed', {})
+if not udp_result.get('alive'):
+    chk.violation('recovery.isolation', 'process-died:reverse-udp-outage', 'the proxy ended during the UDP origin outage', {})
+samples.append({'udp_origin_outage': udp_result})
 long_thread.join(240)
 evals += 1
 if long_thread.is_alive() or 'machinery' in long_result:
@@ -541,6 +618,6 @@ for o in (echo, qecho, cecho):
 if evals < 12 or len(distinct) < 5:
     machinery(f'vacuous: evals={evals} distinct={len(distinct)}')
 cov = {'evaluations': evals, 'distinct_nontrivial': len(distinct), 'transitions': evals, 'traces_validated_against_impl': evals,
-       'rule': f'real binary: connector kind {KINDS} x outage phase {PHASES} x fault {FAULTS} (quick: handshake phase only with restart; thorough adds all pairs of outages); recovery = a probe succeeds within K={K} attempts of {DEADLINE} s after the upstream is reachable again; control tunnel checked during and after every outage; a QUIC upstream away for 34 s (thorough 110 s) with one request per second arriving meanwhile (the connection attempt backs off exponentially); plus, for http and socks5 upstreams, a listener that silently drops connection attempts with 48 requests pending while the control tunnel and new direct requests are timed; plus, for quic / http / socks hops (real second redproxy), one origin behind the healthy hop silently dropping connection attempts for 15 s with 3 requests pending, while 3 established tunnels through the same hop echo every 0.5 s and new ones are opened',
+       'rule': f'real binary: connector kind {KINDS} x outage phase {PHASES} x fault {FAULTS} (quick: handshake phase only with restart; thorough adds all pairs of outages); recovery = a probe succeeds within K={K} attempts of {DEADLINE} s after the upstream is reachable again; control tunnel checked during and after every outage; a QUIC upstream away for 34 s (thorough 110 s) with one request per second arriving meanwhile (the connection attempt backs off exponentially); plus, for http and socks5 upstreams, a listener that silently drops connection attempts with 48 requests pending while the control tunnel and new direct requests are timed; plus, for quic / http / socks hops (real second redproxy), one origin behind the healthy hop silently dropping connection attempts for 15 s with 3 requests pending, while 3 established tunnels through the same hop echo every 0.5 s and new ones are opened; plus a UDP origin behind the reverse listener that goes away while in use and returns on its port: the same client socket, another known one and a fresh one are served again within K attempts',
        'schedules': evals, 'K': K, 'deadline_s': DEADLINE, 'schedule_control': 'kernel', 'samples': samples}
 sys.exit(chk.finish('fault_enumeration', cov, ['silent packet loss on the QUIC path with later recovery is out of reach (needs the 3600 s idle timeout)', 'upstreams are Python servers / a second redproxy process killed with SIGKILL'], merge=False))
